@@ -10,7 +10,7 @@ package main
 // For every target the corruption CLASSES that can be aimed at it are instantiated (c09*Classes); the
 // generator emits every pair (both tiers; the thorough tier also in the opposite order of application
 // and with both stores checked inside one transaction), every triple (thorough) or a seeded sample of
-// the triples (quick).  The same class builders serve the random histories: a target is chosen from
+// ten triples per target (quick).  The same class builders serve the random histories: a target is chosen from
 // the state the history produced (c09FocusCorruptions).
 
 import (
@@ -59,6 +59,27 @@ func c09UqClasses(store, field, v, holder, other, third, ghost, otherVal, fresh 
 
 // set index things.roles, value v held by holder (and holder2, "" = none); non: an entity without v
 func c09SxClasses(v, holder, holder2, non, ghost string) []string {
+	return c09SxClassesOf(c09Things, "roles", v, holder, holder2, non, ghost)
+}
+
+// the same for the set index store.field (store may be a child store of things)
+func c09SxClassesOf(store, field, v, holder, holder2, non, ghost string) []string {
+	cs := c09SxClassesThings(v, holder, holder2, non, ghost)
+	if store == c09Things && field == "roles" {
+		return cs
+	}
+	for i, c := range cs {
+		c = strings.Replace(c, " things.roles ", " "+store+"."+field+" ", 1)
+		if strings.HasPrefix(c, "ED things ") || strings.HasPrefix(c, "EA things ") {
+			c = c[:3] + store + c[9:]
+			c = strings.Replace(c, " roles ", " "+field+" ", 1)
+		}
+		cs[i] = c
+	}
+	return cs
+}
+
+func c09SxClassesThings(v, holder, holder2, non, ghost string) []string {
 	idx := "things.roles"
 	w := toWire
 	cs := []string{
@@ -183,6 +204,24 @@ func c09EmptyStoreClasses(owner string) []string {
 	return cs
 }
 
+// membership of the child stores: m is a member of `store` (with unique value uv in field uf), p a thing without
+// that store's data, whose id sorts BEFORE every member when p is the smallest id
+func c09MemberClasses(store, uf, uv, m, p string) []string {
+	w := toWire
+	idx := store + "." + uf
+	return []string{
+		"XD " + store + " " + w(m),                  // the member loses its data bucket: its index entries dangle
+		"XC " + store + " " + w(p),                  // a thing gains an EMPTY data bucket: a member without any field
+		"UP " + idx + " " + w(uv) + " " + w(p),       // the member's entry points at a thing that is not a member
+		"UP " + idx + " " + w("zz") + " " + w(p),     // an extra entry pointing at a non-member
+		"UD " + idx + " " + w(uv),                   // the member's entry is missing
+		"EF " + store + " " + w(m) + " " + uf + " ~", // nil in the member's non-nullable field
+		"EF " + store + " " + w(m) + " " + uf + " -", // ... or the empty string
+		"EF things " + w(p) + " name " + w("zz"),     // the parent's own index is stale for the non-member
+		"UD things.name " + w("n1"),
+	}
+}
+
 func c09ThingOp(kind, id, name, alias, roles, owner, home, dep, req, boss string) string {
 	return strings.Join([]string{kind, toWire(id), toWire(name), c09Opt2(alias), roles, c09Opt2(owner), toWire(home),
 		c09Opt2(dep), toWire(req), c09Opt2(boss)}, " ")
@@ -216,14 +255,72 @@ func c09SharedTargets() []c09Target {
 			"EF things "+toWire("a2")+" boss "+toWire("a2"), "EF things "+toWire("a1")+" boss "+toWire("a2"))},
 		{"link a1<->b1", h, c09LinkClasses("a1", "b1", "a11", "b11", "a3", c09GhostA, c09GhostB, "b8")},
 		{"entity a1", h, c09EntityClasses("a1", "a2", "n2", "x2", "r1", "b2", "a2")},
+		// the child stores: extended things_x = {a11 (g4, t1, caps c1 c2), a3 (g3, caps c1)}, plain things_p = {a2 (k2, m1),
+		// a3 (k3, q1, m1 m2)}; a1 — the smallest id — is parent-only
+		{"uq things_x.badge g4", h, c09UqClasses("things_x", "badge", "g4", "a11", "a3", "", c09GhostA, "g3", "g9")},
+		{"uq things_x.tag t1", h, c09UqClasses("things_x", "tag", "t1", "a11", "a3", "", c09GhostA, "", "t9")},
+		{"uq things_p.code k2", h, c09UqClasses("things_p", "code", "k2", "a2", "a3", "", c09GhostA, "k3", "k9")},
+		{"uq things_p.nick q1", h, c09UqClasses("things_p", "nick", "q1", "a3", "a2", "", c09GhostA, "", "q9")},
+		{"sx things_x.caps c1", h, c09SxClassesOf("things_x", "caps", "c1", "a11", "a3", "", c09GhostA)},
+		{"sx things_p.marks m2", h, c09SxClassesOf("things_p", "marks", "m2", "a3", "", "a2", c09GhostA)},
+		{"members of things_x", h, append(c09MemberClasses("things_x", "badge", "g4", "a11", "a1"),
+			"EF things_x "+toWire("a11")+" sponsor "+toWire(c09GhostB), "EF things_x "+toWire("a11")+" sponsor ~", "XD things_x "+toWire("a3"))},
+		{"members of things_p", h, append(c09MemberClasses("things_p", "code", "k2", "a2", "a1"), "XD things_p "+toWire("a3"))},
 		{"emptied things", c09EmptiedThingsHistory, c09EmptyStoreClasses("b1")},
 		{"emptied things and owners", c09EmptiedAllHistory, c09EmptyStoreClasses("")},
 		{"never used", nil, c09EmptyStoreClasses("")},
 	}
 }
 
+// c09GenPopulations: MIXED POPULATIONS of the layered stores.  Every assignment of {parent-only, extension data,
+// plain-child data, both} to the three ids a1 < a2 < a3 (64 histories through the API only: parent-only ids before,
+// between and after the members of each child store), each as a healthy database — which must be reported clean —
+// and with one corruption of a child store's index aimed at the first member.
+func c09GenPopulations(tier string, r *rng, out *bufio.Writer) {
+	ids := []string{"a1", "a2", "a3"}
+	for pat := 0; pat < 64; pat++ {
+		h := []string{"cB " + toWire("b1") + " ~"}
+		var firstX, firstP string
+		for i, id := range ids {
+			kind := (pat >> (2 * i)) & 3 // 0 parent-only, 1 extended, 2 plain, 3 both
+			n := id[1:]
+			switch kind {
+			case 0:
+				h = append(h, c09ThingOp("cA", id, "n"+n, "", ".", "", "b1", "", "b1", ""))
+			case 1, 3:
+				h = append(h, c09ThingOp("cX", id, "n"+n, "", ".", "", "b1", "", "b1", "")+" "+toWire("g"+n)+" ~ "+toWire("b1")+" "+c09List([]string{"c1"}))
+				if firstX == "" {
+					firstX = id
+				}
+			}
+			if kind == 2 || kind == 3 {
+				h = append(h, c09ThingOp("cP", id, "n"+n, "", ".", "", "b1", "", "b1", "")+" "+toWire("k"+n)+" ~ "+c09List([]string{"m1"}))
+				if firstP == "" {
+					firstP = id
+				}
+			}
+		}
+		c09EmitCase(out, "sep", h, nil)
+		if tier != "thorough" && pat%4 != int(r.intn(4)) {
+			continue
+		}
+		if firstX != "" {
+			n := firstX[1:]
+			c09EmitCase(out, "sep", h, []string{"UD things_x.badge " + toWire("g"+n)})
+			c09EmitCase(out, "sep", h, []string{"SD things_x.caps " + toWire("c1") + " " + toWire(firstX)})
+			c09EmitCase(out, "tx1r", h, []string{"XD things_x " + toWire(firstX)})
+		}
+		if firstP != "" {
+			n := firstP[1:]
+			c09EmitCase(out, "sep", h, []string{"UP things_p.code " + toWire("k"+n) + " " + toWire("a9")})
+			c09EmitCase(out, "tx1", h, []string{"XD things_p " + toWire(firstP)})
+		}
+	}
+}
+
 func c09GenInteracting(tier string, r *rng, out *bufio.Writer) {
 	thorough := tier == "thorough"
+	c09GenPopulations(tier, r, out)
 	for _, t := range c09SharedTargets() {
 		cs := t.classes
 		n := len(cs)
@@ -250,7 +347,7 @@ func c09GenInteracting(tier string, r *rng, out *bufio.Writer) {
 				}
 			}
 		} else if n >= 3 {
-			for m := 0; m < 20; m++ {
+			for m := 0; m < 10; m++ {
 				i, j, k := r.intn(n), r.intn(n), r.intn(n)
 				if i != j && j != k && i != k {
 					c09EmitCase(out, "sep", t.history, []string{cs[i], cs[j], cs[k]})
@@ -351,7 +448,68 @@ func c09FocusCorruptions(r *rng, state string) []string {
 			}
 			return ""
 		}
-		switch r.intn(8) {
+		members := func(store string) []c09DumpEnt { return d[store] }
+		switch r.intn(11) {
+		case 8:
+			// a unique index of a child store, aimed at one of its members
+			st, uf, fresh := c09ThingsX, "badge", "g9"
+			if r.chance(1, 2) {
+				st, uf, fresh = c09ThingsP, "code", "k9"
+			}
+			if ms := members(st); len(ms) > 0 {
+				m := pick(r, ms)
+				if v := m.fields[uf]; v != "" {
+					other, otherVal := c09GhostA, ""
+					if os := c09Others(ms, m.id); len(os) > 0 {
+						o := pick(r, os)
+						other, otherVal = o.id, o.fields[uf]
+					}
+					cs = c09UqClasses(st, uf, v, m.id, other, "", c09GhostA, otherVal, fresh)
+				}
+			}
+		case 9:
+			// membership itself: a member m and a thing p without that store's data (the smallest such id)
+			st, uf := c09ThingsX, "badge"
+			if r.chance(1, 2) {
+				st, uf = c09ThingsP, "code"
+			}
+			if ms := members(st); len(ms) > 0 {
+				m := pick(r, ms)
+				p := ""
+				for _, t := range things {
+					isMember := false
+					for _, x := range ms {
+						if x.id == t.id {
+							isMember = true
+						}
+					}
+					if !isMember && p == "" {
+						p = t.id
+					}
+				}
+				if p != "" && m.fields[uf] != "" {
+					cs = c09MemberClasses(st, uf, m.fields[uf], m.id, p)
+				}
+			}
+		case 10:
+			st, sf := c09ThingsX, "caps"
+			if r.chance(1, 2) {
+				st, sf = c09ThingsP, "marks"
+			}
+			for _, m := range members(st) {
+				if vs := m.sets[sf]; len(vs) > 0 && cs == nil {
+					v := pick(r, vs)
+					h2, non := "", ""
+					for _, e := range c09Others(members(st), m.id) {
+						if c09Contains(e.sets[sf], v) {
+							h2 = e.id
+						} else {
+							non = e.id
+						}
+					}
+					cs = c09SxClassesOf(st, sf, v, m.id, h2, non, c09GhostA)
+				}
+			}
 		case 0:
 			if v := a.fields["name"]; v != "" && o.id != "" {
 				cs = c09UqClasses("things", "name", v, a.id, o.id, o2.id, c09GhostA, o.fields["name"], "n9")
